@@ -305,7 +305,7 @@ func TestC20(t *testing.T) {
 		fmt.Println("REPLAY case passed")
 		return
 	}
-	ev.Rule("(a) 20 published RGB spaces; (b) rapid triangles inside the chromaticity diagram with area >= 0.01 (a third with primaries sharing coordinates exactly) and every ordered lattice triangle of a 5x5 (thorough 8x8) grid, and white = barycentric mix with weights >= 0.05; (c) rapid 3x3 matrices with entries in [-4,4], |det| >= 1e-3, a sixth of them structured (rotations, reflections, signed permutations, symmetric, scaled rotations; exact, single precision, seven digits, or perturbed by 1e-10..1e-5); (d) exactly singular small-integer matrices (zero/repeated column or row, integer linear dependence) and matrices with a repeated or zero column whose entries are decimal fractions or arbitrary floats. an eighth of the rapid cases directly follow a request outside the domain (non-finite or degenerate arguments) whose answer is ignored. non-trivial = generated triangle (not a built-in space) or matrix with condition number > 10")
+	ev.Rule("(a) 20 published RGB spaces; (b) rapid triangles inside the chromaticity diagram with area >= 0.01 (a third with primaries sharing coordinates exactly) and every ordered lattice triangle of a 5x5 (thorough 8x8) grid (the first 4096 of them asked a second time once all have been asked: the answer does not depend on how many distinct requests came before), and white = barycentric mix with weights >= 0.05; (c) rapid 3x3 matrices with entries in [-4,4], |det| >= 1e-3, a sixth of them structured (rotations, reflections, signed permutations, symmetric, scaled rotations; exact, single precision, seven digits, or perturbed by 1e-10..1e-5); (d) exactly singular small-integer matrices (zero/repeated column or row, integer linear dependence) and matrices with a repeated or zero column whose entries are decimal fractions or arbitrary floats. an eighth of the rapid cases directly follow a request outside the domain (non-finite or degenerate arguments) whose answer is ignored. non-trivial = generated triangle (not a built-in space) or matrix with condition number > 10")
 	ev.Assume("internal/ref row-major Gauss-Jordan algebra")
 	for _, p := range append(append([]Prim(nil), published...), Prim{Name: "sRGB, white Y=5e-4", R: published[0].R, G: published[0].G, B: published[0].B, W: published[0].W, WY: 5e-4},
 		Prim{Name: "sRGB primaries given with their own luminances", R: published[0].R, G: published[0].G, B: published[0].B, W: published[0].W, PY: [3]float32{0.2126, 0.7152, 0.0722}},
@@ -337,6 +337,7 @@ func TestC20(t *testing.T) {
 		}
 		var nl int64
 		done := false
+		var asked []Prim // the first 4096 lattice triangles, asked again below: the answer to a request does not depend on how many distinct requests preceded it
 		for i := 0; i < len(pts) && !done; i++ {
 			for j := 0; j < len(pts) && !done; j++ {
 				for k := 0; k < len(pts) && !done; k++ {
@@ -349,6 +350,9 @@ func TestC20(t *testing.T) {
 					p := Prim{Name: "lattice", R: r, G: g, B: b}
 					p.W = [2]float32{float32(wts[0]*float64(r[0]) + wts[1]*float64(g[0]) + wts[2]*float64(b[0])), float32(wts[0]*float64(r[1]) + wts[1]*float64(g[1]) + wts[2]*float64(b[1]))}
 					nl++
+					if len(asked) < 4096 {
+						asked = append(asked, p)
+					}
 					if kd, w, _ := checkPrim(p); kd != "" {
 						ev.Violation("primaries", kd, w, p)
 						done = true
@@ -356,9 +360,20 @@ func TestC20(t *testing.T) {
 				}
 			}
 		}
+		for i, p := range asked {
+			if done {
+				break
+			}
+			nl++
+			if kd, w, _ := checkPrim(p); kd != "" {
+				ev.Violation("primaries", kd, fmt.Sprintf("distinct request no. %d of this process, asked a second time after %d distinct requests: %s", len(published)+3+i+1, len(published)+3+len(asked), w), p)
+				done = true
+			}
+		}
+		ev.Class("lattice-triangles-asked-again", int64(len(asked)))
 		ev.Eval(nl)
-		ev.NTAdd(nl)
-		ev.Class("lattice-triangles", nl)
+		ev.NTAdd(nl - int64(len(asked)))
+		ev.Class("lattice-triangles", nl-int64(len(asked)))
 	}
 	n := ev.Pick(20000, 500000)
 	ev.RapidChecks(n)
